@@ -19,6 +19,7 @@ import (
 	"path/filepath"
 	"strings"
 	"syscall"
+	"time"
 
 	"github.com/diskfs/go-diskfs/filesystem"
 	"github.com/diskfs/go-diskfs/filesystem/ext4"
@@ -139,7 +140,7 @@ func buildFat32Sector4k(r *hx.Rng) (baseImage, error) {
 	if err := put(fsys, "exact2.bin", r.Bytes(2*4096)); err != nil {
 		return baseImage{}, err
 	}
-	return baseImage{name: "fat32-4k-start", kind: "fat32", img: d.Bytes(0, int(start+size)), start: start, sector: 4096, quickBudget: 200}, nil
+	return baseImage{name: "fat32-4k-start", kind: "fat32", img: d.Bytes(0, int(start+size)), start: start, sector: 4096, quickBudget: 150}, nil
 }
 
 // ---- ext4: 2 KiB blocks, 40 groups (two blocks of descriptors), depth-1 extent trees, big directory ---
@@ -187,7 +188,7 @@ func buildExt4GroupsFrag(r *hx.Rng) (baseImage, error) {
 	if err := put(fsys, "exact2.bin", r.Bytes(2*2048)); err != nil {
 		return baseImage{}, err
 	}
-	return baseImage{name: "ext4-groups-frag", kind: "ext4", img: d.Bytes(0, int(size)), quickBudget: 200}, nil
+	return baseImage{name: "ext4-groups-frag", kind: "ext4", img: d.Bytes(0, int(size)), quickBudget: 150}, nil
 }
 
 // ext4 made by the reference mke2fs (the library never writes these): 32-byte group descriptors (no
@@ -225,6 +226,14 @@ func buildExt4Mke2fs(r *hx.Rng) (baseImage, error) {
 	}
 	_ = os.Symlink("a.txt", filepath.Join(root, "link-fast"))
 	_ = os.Symlink("dir1/"+strings.Repeat("long-target-name-", 5)+".dat", filepath.Join(root, "link-slow"))
+	// the same timestamps on every run: the image (and with it the set of cases) is then the same
+	stamp := time.Unix(1700000000, 0)
+	_ = filepath.WalkDir(root, func(p string, d os.DirEntry, err error) error {
+		if err == nil && d.Type()&os.ModeSymlink == 0 {
+			_ = os.Chtimes(p, stamp, stamp)
+		}
+		return nil
+	})
 	img := filepath.Join(dir, "img")
 	run := func(name string, okExit int, a ...string) error {
 		cmd := exec.Command(name, a...)
@@ -256,7 +265,7 @@ func buildExt4Mke2fs(r *hx.Rng) (baseImage, error) {
 	if err != nil {
 		return baseImage{}, err
 	}
-	return baseImage{name: "ext4-mke2fs-htree", kind: "ext4", img: b, quickBudget: 250}, nil
+	return baseImage{name: "ext4-mke2fs-htree", kind: "ext4", img: b, quickBudget: 150}, nil
 }
 
 // ---- iso9660: Joliet; Rock Ridge with symlinks, continuation areas, multi-sector directories ----------
@@ -330,7 +339,7 @@ func buildIsoRich(r *hx.Rng, name string, rockRidge, joliet bool) (baseImage, er
 	if end < 64*2048 {
 		end = 64 * 2048
 	}
-	return baseImage{name: name, kind: "iso9660", img: d.Bytes(0, int(end)), be: true, quickBudget: 150}, nil
+	return baseImage{name: name, kind: "iso9660", img: d.Bytes(0, int(end)), be: true, quickBudget: 100}, nil
 }
 
 // ---- squashfs: many inodes and fragment blocks, symlinks, fifo; zstd with options at a start offset --
@@ -400,7 +409,7 @@ func buildSquashfsRich(r *hx.Rng) (baseImage, error) {
 		end = 4096
 	}
 	// a case costs some 15 000 inode reads (a path walk reads every inode of every directory on the path)
-	return baseImage{name: "squashfs-rich", kind: "squashfs", img: d.Bytes(0, int(end)), quickBudget: 250}, nil
+	return baseImage{name: "squashfs-rich", kind: "squashfs", img: d.Bytes(0, int(end)), quickBudget: 150}, nil
 }
 
 // buildSquashfsFixture: the one non-empty image of the repository's test data that mksquashfs made
@@ -418,7 +427,7 @@ func buildSquashfsFixture(*hx.Rng) (baseImage, error) {
 	if len(b) < 96 || string(b[:4]) != "hsqs" {
 		return baseImage{}, fmt.Errorf("dir_read.sqs is not a squashfs image (%d bytes)", len(b))
 	}
-	return baseImage{name: "squashfs-mksquashfs", kind: "squashfs", img: b, quickBudget: 120}, nil
+	return baseImage{name: "squashfs-mksquashfs", kind: "squashfs", img: b, quickBudget: 100}, nil
 }
 
 func buildSquashfsZstd(r *hx.Rng) (baseImage, error) {
@@ -455,7 +464,7 @@ func buildSquashfsZstd(r *hx.Rng) (baseImage, error) {
 	if end < start+4096 {
 		end = start + 4096
 	}
-	return baseImage{name: "squashfs-zstd-128k-start", kind: "squashfs", img: d.Bytes(0, int(end)), start: start, sector: 131072, quickBudget: 200}, nil
+	return baseImage{name: "squashfs-zstd-128k-start", kind: "squashfs", img: d.Bytes(0, int(end)), start: start, sector: 131072, quickBudget: 150}, nil
 }
 
 // buildSquashfsBasic writes, byte by byte from the format description, a small uncompressed squashfs 4.0
@@ -540,7 +549,7 @@ func buildSquashfsBasic(r *hx.Rng) (baseImage, error) {
 	sb = u64(u64(u64(u64(sb, uint64(off["root"])), uint64(used)), uint64(idTab)), ^uint64(0))
 	sb = u64(u64(u64(u64(sb, uint64(inoStart)), uint64(dirStart)), uint64(fragTab)), ^uint64(0))
 	copy(img, sb)
-	return baseImage{name: "squashfs-basic-handmade", kind: "squashfs", img: img, quickBudget: 400}, nil
+	return baseImage{name: "squashfs-basic-handmade", kind: "squashfs", img: img, quickBudget: 250}, nil
 }
 
 // buildOverGarbage builds the small tree of the first bases on a device that holds random bytes instead
@@ -584,5 +593,5 @@ func buildOverGarbage(r *hx.Rng, kind string) (baseImage, error) {
 			return baseImage{}, err
 		}
 	}
-	return baseImage{name: name, kind: kind, img: d.Bytes(0, int(size)), be: kind == "iso9660", quickBudget: 250}, nil
+	return baseImage{name: name, kind: kind, img: d.Bytes(0, int(size)), be: kind == "iso9660", quickBudget: 100}, nil
 }
